@@ -455,6 +455,32 @@ pub fn exp_c07(e: &mut Exp) {
             }
         }
     }
+    // acceptance of n distinct inserts at sizes just below 0.95 * 2^j, where the table built by
+    // with_properties_4 is at its fullest and inserts need relocations
+    let big: &[(usize, f64)] = if e.scale > 1 { &[(62_259, 0.02), (124_518, 0.02), (249_036, 0.02), (31_129, 0.3)] } else { &[(62_259, 0.02), (124_518, 0.02)] };
+    for &(n, p) in big {
+        for s in 0..(if e.scale > 1 { 8 } else { 4 }) {
+            let seed = (e.rng.next() % 1_000_000) as usize + s as usize;
+            let mut c4 = CuckooFilter::<u64, ScriptRng, BuildHasherSeeded>::with_properties_and_hash_4(p, n, ScriptRng::new(e.rng.next()), BuildHasherSeeded::new(seed));
+            let mut c8 = CuckooFilter::<u64, ScriptRng, BuildHasherSeeded>::with_properties_and_hash_8(p, n, ScriptRng::new(e.rng.next()), BuildHasherSeeded::new(seed));
+            let base = e.rng.next() >> 2;
+            let (mut full4, mut full8) = (0u64, 0u64);
+            for i in 0..n as u64 {
+                full4 += c4.insert(&(base + i)).is_err() as u64;
+                full8 += c8.insert(&(base + i)).is_err() as u64;
+            }
+            e.evals += 1;
+            if full4 > 0 {
+                e.fails.push(format!("cuckoo_4(p={}, n={}) refused {} of {} distinct inserts as Full", p, n, full4, n));
+            }
+            if full8 > 0 {
+                e.fails.push(format!("cuckoo_8(p={}, n={}) refused {} of {} distinct inserts as Full", p, n, full8, n));
+            }
+            if c4.len() != n || c8.len() != n {
+                e.fails.push(format!("cuckoo(p={}, n={}): len() = {} / {} after n accepted inserts", p, n, c4.len(), c8.len()));
+            }
+        }
+    }
     // quotient filter: frequency <= m * 2^-(q+r)
     for &(q, r, m) in &[(8usize, 4usize, 200u64), (10, 3, 600), (6, 8, 50)] {
         let mut fp = 0u64;
@@ -609,6 +635,39 @@ pub fn exp_c08_floor(e: &mut Exp) {
         e.statmax("c08.floor_frac_over_delta_x100", (frac / delta * 100.0) as u64);
         if frac > lim {
             e.fails.push(format!("cms double-hashing floor (eps={}, delta={}): overestimate exceeds eps*N for a fraction {:.5} of (seed, element) pairs > delta (+margin: {:.5})", eps, delta, frac, lim));
+        }
+    }
+}
+
+/// Open known finding of C07 (same root cause as the C08 one): the k Bloom positions are a
+/// function of (h1 mod m, h2 mod m) only, so a probe that agrees with an inserted element in
+/// both residues is a false positive whatever k is; the frequency cannot fall below ~ n/m^2,
+/// which exceeds 1.3*p once p is below ~ 0.18/(n ln^2(1/p)).
+pub fn exp_c07_floor(e: &mut Exp) {
+    let seeds: u64 = if e.scale > 1 { 40 } else { 16 };
+    let per: u64 = if e.scale > 1 { 250_000 } else { 125_000 };
+    for &(n, p) in &[(50usize, 1e-8f64), (100, 1e-8), (50, 1e-6), (200, 1e-7)] {
+        let mut fp = 0u64;
+        let mut total = 0u64;
+        for s in 0..seeds {
+            let seed = (e.rng.next() % 1_000_000) as usize + s as usize;
+            let mut bf = BloomFilter::<u64, BuildHasherSeeded>::with_properties_and_hash(n, p, BuildHasherSeeded::new(seed));
+            let base = e.rng.next() >> 2;
+            for i in 0..n as u64 {
+                bf.insert(&(base + i)).unwrap();
+            }
+            for j in 0..per {
+                fp += bf.query(&(base + n as u64 + 1 + j)) as u64;
+            }
+            total += per;
+            e.evals += 1;
+        }
+        let t = total as f64;
+        let r = fp as f64 / t;
+        let lim = 1.3 * p + 5.5 * (1.3 * p / t).sqrt() + 3.0 / t;
+        e.statmax("c07.floor_rate_over_p_x100", (r / p * 100.0).min(1e12) as u64);
+        if r > lim {
+            e.fails.push(format!("bloom double-hashing floor (n={}, p={:e}): false-positive frequency {:.3e} exceeds 1.3*p (+margin: {:.3e})", n, p, r, lim));
         }
     }
 }
@@ -788,6 +847,42 @@ pub fn exp_c11(e: &mut Exp) {
             let _ = d.quantile(0.5);
             check_mem(e, &format!("tdigest delta={} backlog={} after {} inserts", delta, bl, n), crate::alloc::live() - base, doc, 512);
         }
+    }
+    // the same with weighted inserts (integer multiplicities, tiny and huge weights) and every
+    // scale function: the centroid count must not depend on how the weight is distributed
+    fn td_weighted<S: ScaleFunction + Clone + std::fmt::Debug>(e: &mut Exp, name: &str, sf: S, delta: f64, bl: usize, lens: &[u64]) {
+        for wmode in 0..3u64 {
+            let mut d = TDigest::new(sf.clone(), bl);
+            let base = crate::alloc::live();
+            let doc = 16 * (delta as usize + 3 + bl + 1) * 2;
+            let mut i = 0u64;
+            let mut sm = SplitMix(11 + wmode);
+            for &n in lens.iter().take(2) {
+                while i < n {
+                    let w = match wmode {
+                        0 => 1.0 + sm.below(50) as f64,
+                        1 => if sm.chance(1, 2) { 1e-6 } else { 1e6 },
+                        _ => 0.5 + sm.f01(),
+                    };
+                    d.insert_weighted(sm.f01() * 100.0, w);
+                    i += 1;
+                }
+                let _ = d.quantile(0.5);
+                let nc = d.n_centroids();
+                e.evals += 1;
+                // K0/K1: delta + 3; K2/K3 with non-unit weights: the same order of magnitude
+                if nc as f64 > 2.0 * delta + 6.0 + bl as f64 {
+                    e.fails.push(format!("tdigest {} delta={} backlog={} weights#{}: {} centroids after {} weighted inserts (O(delta + backlog) expected)", name, delta, bl, wmode, nc, n));
+                }
+                check_mem(e, &format!("tdigest {} delta={} backlog={} weights#{} after {} weighted inserts", name, delta, bl, wmode, n), crate::alloc::live() - base, doc, 512);
+            }
+        }
+    }
+    for &(delta, bl) in &[(20.0f64, 32usize), (100.0, 10)] {
+        td_weighted(e, "K0", K0::new(delta), delta, bl, lens);
+        td_weighted(e, "K1", K1::new(delta), delta, bl, lens);
+        td_weighted(e, "K2", K2::new(delta), delta, bl, lens);
+        td_weighted(e, "K3", K3::new(delta), delta, bl, lens);
     }
     // --- cms heap: k items (+ the sketch) ------------------------------------------------------
     for &k in &[1usize, 10, 1000] {
